@@ -4,7 +4,11 @@ package rt
 // rapid property of the same name; the engine, not rapid, chooses the bytes.
 
 import (
+	"fmt"
+	"strings"
+
 	frugal "github.com/Workiva/frugal/lib/go"
+	"github.com/apache/thrift/lib/go/thrift"
 	"encoding/binary"
 	"testing"
 
@@ -30,6 +34,26 @@ func FuzzC05Sync(f *testing.F) {
 		}
 	}
 	f.Add(uint8(0), uint8(0), uint8(0), []byte{})
+	// hostile constants of the message layer: method names that are not text, around the lengths
+	// at which replies truncate them
+	for ei, e := range c05SyncEntries {
+		if c05IsResponse(e) || e == "readHeader" || e == "headersFromFrame" {
+			continue
+		}
+		for pi, p := range fuzzProtos {
+			for _, n := range []int{255, 257, 300} {
+				for _, fill := range []string{"\x80", "\xff", "\xe2\x82"} {
+					v := "x"
+					name := strings.Repeat(fill, n/len(fill)+1)[:n]
+					data := frameContent([]KV{kv("_opid", "7"), kv("_cid", "c")}, thriftMessage(p, name, thrift.CALL, &strStruct{Name: "x_args", ID: 1, V: &v}))
+					if c05Framed(e) {
+						data = refFrame(data)
+					}
+					f.Add(uint8(ei), uint8(pi), uint8(0), data)
+				}
+			}
+		}
+	}
 	subjects := []string{"inbox.7", "inbox.", "inbox", "", ".", "inbox.99999999999999999999999", "inbox.-1"}
 	statuses := []string{"", "", "503", "404", "x"}
 	f.Fuzz(func(t *testing.T, ei, pi, aux uint8, data []byte) {
@@ -89,6 +113,21 @@ func checkC04Decode(c c04DecCase) *ev.Failure {
 	}
 	if !mapsEqual(got2, want) {
 		return ev.Failf("frame-reader-differs", "getHeadersFromFrame returned %v, documented layout says %v (% x)", got2, want, head(c.Data))
+	}
+	// a header added to the complete frame arrives next to the ones it already had
+	if p := catch(func() {
+		nf, err := frugal.VerifAddHeadersToFrame(refFrame(c.Data), map[string]string{"added-by-fuzz": "v"})
+		if err != nil {
+			panic(fmt.Sprintf("addHeadersToFrame: %v", err))
+		}
+		got3, _, derr := refDecodeHeaders(nf[4:])
+		merged := pairsToMap(pairs)
+		merged["added-by-fuzz"] = "v"
+		if derr != nil || !mapsEqual(pairsToMap(got3), merged) {
+			panic(fmt.Sprintf("addHeadersToFrame result decodes to %v (%v), want %v", pairsToMap(got3), derr, merged))
+		}
+	}); p != "" {
+		return ev.Failf("add-headers", "%s (% x)", p, head(c.Data))
 	}
 	// and back: marshalling the decoded map yields a block the reference decodes to the same map
 	back, _, berr := refDecodeHeaders(frugal.VerifMarshalHeaders(got))
